@@ -373,6 +373,10 @@ func report(o *runOpts, prop string, frs []*FuncResult, wall float64) int {
 		funcs = append(funcs, finfo)
 		for n := range fr.Notes {
 			assumptions[n] = true
+			if strings.HasPrefix(n, "call name never counted") && os.Getenv("GCV_STRICT") != "" {
+				// development / evidence refresh: a clause over a call the function never makes
+				undecided = append(undecided, "VACUOUS: "+n)
+			}
 		}
 		for n, c := range fr.Bounded {
 			bounded[n] += c
@@ -490,6 +494,9 @@ func report(o *runOpts, prop string, frs []*FuncResult, wall float64) int {
 	if d := os.Getenv("GCV_OVERLAY"); d != "" {
 		// a run against patched sources (mutation testing) must not replace the evidence of /repo
 		evDir = filepath.Join(d, "evidence")
+	}
+	if d := os.Getenv("GCV_EVIDENCE_DIR"); d != "" && d != "/dev/null" {
+		evDir = d // development runs that must leave /verif/evidence alone
 	}
 	os.MkdirAll(evDir, 0o755)
 	data, _ := json.MarshalIndent(ev, "", " ")
